@@ -11,7 +11,9 @@ use std::collections::VecDeque;
 use std::io::Write;
 
 #[derive(Clone, Debug)]
-pub struct Pat { mode: u8, m: usize, lo: usize, c0: usize, k: usize, freeze: bool, rt: usize, unsplit: bool, vary: bool, fill: u8 }
+pub struct Pat { mode: u8, m: usize, lo: usize, c0: usize, k: usize, freeze: bool, rt: usize, unsplit: bool, vary: bool, fill: u8,
+                 /// every `bp`-th round the message is `bm` times as long (0 = no bursts): small frames with an occasional large one
+                 bp: usize, bm: usize }
 enum Part { M(BytesMut), B(Bytes) }
 fn count_allocs() -> usize { ledger::take_events().iter().filter(|e| matches!(e, Ev::Alloc(..) | Ev::Realloc(..))).count() }
 
@@ -22,9 +24,10 @@ pub fn run_pattern(p: &Pat, n: usize, factor: usize, rng: &mut Rng) -> String {
     let mut q: VecDeque<Part> = VecDeque::new();
     let (mut peak_n, mut peak_all, mut allocs_n, mut capmax, mut maxlive, mut bmax, mut alone) = (0usize, 0usize, 0usize, 0usize, 0usize, 0usize, true);
     let total = n * factor;
-    let payload = vec![0x5au8; p.m * 2 + 8];
+    let payload = vec![0x5au8; p.m * p.bm.max(2) + 8];
     for round in 0..total {
         let m = if p.vary { 1 + rng.below(p.m as u64) as usize } else { p.m };
+        let m = if p.bp > 0 && round % p.bp == p.bp - 1 { m * p.bm } else { m };
         bmax = bmax.max(buf.len() + m);
         // is the handle alone on its buffer at refill time?
         if !q.is_empty() { alone = false; }
@@ -66,21 +69,25 @@ pub fn run_pattern(p: &Pat, n: usize, factor: usize, rng: &mut Rng) -> String {
     let (bufs, ctrl) = ledger::live_summary();
     let leak = !bufs.is_empty() || ctrl != 0;
     ledger::reset(false);
-    format!("R mode={} fill={} m={} lo={} c0={} k={} freeze={} rt={} unsplit={} vary={} n={} f={} B={} peakN={} peakAll={} allocsN={} allocsAll={} capmax={} maxlive={} alone={} leak={}",
-            p.mode, p.fill, p.m, p.lo, p.c0, p.k, p.freeze as u8, p.rt, p.unsplit as u8, p.vary as u8, n, factor, bmax, peak_n, peak_all, allocs_n, allocs, capmax, maxlive, alone as u8, leak as u8)
+    format!("R mode={} fill={} m={} lo={} c0={} k={} freeze={} rt={} unsplit={} vary={} burst={}x{} n={} f={} B={} peakN={} peakAll={} allocsN={} allocsAll={} capmax={} maxlive={} alone={} leak={}",
+            p.mode, p.fill, p.m, p.lo, p.c0, p.k, p.freeze as u8, p.rt, p.unsplit as u8, p.vary as u8, p.bp, p.bm, n, factor, bmax, peak_n, peak_all, allocs_n, allocs, capmax, maxlive, alone as u8, leak as u8)
 }
 pub fn gen_pat(rng: &mut Rng) -> Pat {
-    let m = *rng.pick(&[1usize, 7, 16, 64, 100, 1000, 1024, 4096, 5000]);
-    let lo = match rng.below(4) { 0 => 0, 1 => 1, 2 => m / 3, _ => m.saturating_sub(1) };
+    let m = *rng.pick(&[1usize, 7, 16, 64, 100, 1000, 1024, 4096, 5000, 8192, 16384, 70000]);
+    let lo = match rng.below(7) { 0 => 0, 1 => 1, 2 => m / 3, 3 => m / 2 + 1, 4 => 2 * m / 3, 5 => 4097usize.min(m.saturating_sub(1)), _ => m.saturating_sub(1) };
+    let (bp, bm) = if m <= 5000 && rng.chance(1, 4) { (*rng.pick(&[5usize, 16, 50]), *rng.pick(&[3usize, 8, 50])) } else { (0, 0) };
     Pat { mode: rng.below(4) as u8, m, lo, c0: *rng.pick(&[0usize, 1, 8, 64, 1024, 4096, 8192, 65536]), k: *rng.pick(&[0usize, 0, 0, 1, 2, 5]),
-          freeze: rng.chance(1, 3), rt: *rng.pick(&[0usize, 0, 3, 10]), unsplit: rng.chance(1, 4), vary: rng.chance(1, 3), fill: *rng.pick(&[0u8, 0, 1, 2, 3, 4, 5]) }
+          freeze: rng.chance(1, 3), rt: *rng.pick(&[0usize, 0, 3, 10]), unsplit: rng.chance(1, 4), vary: rng.chance(1, 3), fill: *rng.pick(&[0u8, 0, 1, 2, 3, 4, 5]), bp, bm }
 }
 pub fn recycle(out: &mut dyn Write, seed: u64, npat: usize, n: usize, factor: usize) {
     let mut rng = Rng::new(seed ^ 0x7ec1c1e);
     // the fixed periodic patterns first, then seeded random ones
     let mut pats = vec![];
-    for mode in 0..4u8 { for (m, lo, c0) in [(64usize, 0usize, 0usize), (1024, 0, 1024), (1024, 100, 4096), (4096, 0, 65536), (1000, 999, 8)] { pats.push(Pat { mode, m, lo, c0, k: 0, freeze: false, rt: 0, unsplit: false, vary: false, fill: 0 }); } }
-    for fill in 1..6u8 { for mode in [0u8, 2] { pats.push(Pat { mode, m: 1024, lo: 0, c0: 1024, k: 0, freeze: false, rt: 0, unsplit: false, vary: false, fill }); pats.push(Pat { mode, m: 100, lo: 7, c0: 64, k: 0, freeze: false, rt: 0, unsplit: false, vary: false, fill }); } }
+    for mode in 0..4u8 { for (m, lo, c0) in [(64usize, 0usize, 0usize), (1024, 0, 1024), (1024, 100, 4096), (4096, 0, 65536), (1000, 999, 8)] { pats.push(Pat { mode, m, lo, c0, k: 0, freeze: false, rt: 0, unsplit: false, vary: false, fill: 0, bp: 0, bm: 0 }); } }
+    for fill in 1..6u8 { for mode in [0u8, 2] { pats.push(Pat { mode, m: 1024, lo: 0, c0: 1024, k: 0, freeze: false, rt: 0, unsplit: false, vary: false, fill, bp: 0, bm: 0 }); pats.push(Pat { mode, m: 100, lo: 7, c0: 64, k: 0, freeze: false, rt: 0, unsplit: false, vary: false, fill, bp: 0, bm: 0 }); } }
+    // large messages with a large unread tail (sizes beyond every small-buffer shortcut), and small frames with an occasional frame several times the initial capacity
+    for mode in 0..4u8 { for (m, lo, c0) in [(8192usize, 5000usize, 16384usize), (16384, 4097, 1024), (70000, 35001, 65536)] { pats.push(Pat { mode, m, lo, c0, k: 0, freeze: false, rt: 0, unsplit: false, vary: false, fill: 0, bp: 0, bm: 0 }); } }
+    for mode in 0..4u8 { for (m, c0, bp, bm) in [(100usize, 1024usize, 7usize, 50usize), (64, 4096, 16, 300), (1000, 1024, 5, 8)] { pats.push(Pat { mode, m, lo: 0, c0, k: 0, freeze: false, rt: 0, unsplit: false, vary: false, fill: 0, bp, bm }); } }
     for _ in 0..npat { pats.push(gen_pat(&mut rng)); }
     for p in &pats {
         crate::progress(&format!("{:?}", p));
@@ -89,7 +96,7 @@ pub fn recycle(out: &mut dyn Write, seed: u64, npat: usize, n: usize, factor: us
     }
 }
 pub fn recycle_one(out: &mut dyn Write, n: usize, factor: usize) {
-    let p = Pat { mode: 1, m: 16, lo: 0, c0: 8, k: 5, freeze: true, rt: 3, unsplit: false, vary: false, fill: 0 };
+    let p = Pat { mode: 1, m: 16, lo: 0, c0: 8, k: 5, freeze: true, rt: 3, unsplit: false, vary: false, fill: 0, bp: 0, bm: 0 };
     let mut rng = Rng::new(1);
     let t = std::time::Instant::now();
     let line = run_pattern(&p, n, factor, &mut rng);
